@@ -16,8 +16,9 @@ RULE = (
     "beyond 2^53. Every line is parsed by feature_from_line and printed; compared with the generator's expectation: ordered attributes, "
     "8 columns, extra columns, inferred dialect (observable projection), byte-identical print; a line with >= 1 attribute part is "
     "parsed again with the inferred dialect handed over and must give the same attributes and print; without extra columns the "
-    "blank-separated rendering parsed with strict=False must give an equal feature. All executions are distinct choice sequences; "
-    "non-trivial = the line has >= 2 attribute parts, or an escape/special value, or extra columns, or '.' start coordinate."
+    "blank-separated rendering parsed with strict=False must give an equal feature, and so must the rendering with two blanks at every "
+    "column boundary (which must not raise either). All executions are distinct choice sequences; non-trivial = the line has >= 2 "
+    "attribute parts, or an escape/special value, or extra columns, or '.' start coordinate."
 )
 ASSUMPTIONS = [
     "keys are \\w+ (GFF3 is recognised by key= at the very start, so a valueless flag is never first in key=value style)",
